@@ -5,6 +5,7 @@ import scen_common, mu_common, vrt_runner
 PID = "C07"
 PROP_V = "Props/Properties_C07.v"
 GEN_MODULES = ["Consts", "Sites"]
+FLOW_FILES = ['once.c']
 REPLAY_HINT = "VRT_SEED=<seed> _work/h/once_mix  (VRT_TRACE=<file>, then coq/_rp_once_replay/once_replay <file> coq/Gen/Sites.json)"
 TRUSTED_BASE = ["Model/OnceModel.v control skeleton: hand-written, validated by lock-step replay of the once-word sites (replay/once_replay.ml); "
                 "once_mu / once_cv are abstract in the model (a loser may re-read the word at any time); the sharing of internal locks between "
